@@ -109,6 +109,11 @@ func VerifySig(pub Pubkey, msg []byte, sig Signature) bool {
 	if sig.value.IsNil() {
 		return false
 	}
+	// e(O, g2) = 1 = e(H(m), O): under the identity public key the identity signature would
+	// verify for every message. Neither is ever produced by a valid secret key.
+	if sig.value.IsInfinity() || pub.value.IsInfinity() {
+		return false
+	}
 	bQ := bn_curve.GetG2Base()
 	p1 := bn_curve.Pair(&sig.value, bQ)
 
